@@ -56,11 +56,11 @@ func (p *propC10) Prepare(seed uint64, tier string) int {
 	p.seed, p.tier = seed, tier
 	maxCorpus := 160000
 	nModel := 40
-	p.count = 1500
+	p.count = 40000
 	if isThorough(tier) {
 		maxCorpus = 1100000
 		nModel = 200
-		p.count = 40000
+		p.count = 400000
 	}
 	p.pool = corpusFrames(maxCorpus, false)
 	// model-built frames, some engineered around buffer boundaries
